@@ -148,7 +148,7 @@ func (e *Engine) bridge(name string, fn any) externalFn {
 	rt := rf.Type()
 	return func(fr *frame, args []value) value {
 		if anySym(args) {
-			fr.i.ex.unsupported("symbolic operand to " + name)
+			args = fr.i.ex.concretizeArgs(args, name)
 		}
 		in := make([]reflect.Value, len(args))
 		for i, a := range args {
@@ -444,7 +444,13 @@ func (e *Engine) initMiscExternals() {
 	}
 	t["regexp.MatchString"] = func(fr *frame, a []value) value {
 		if anySym(a) {
-			fr.i.ex.unsupported("regexp.MatchString on symbolic subject")
+			if pat, ok := a[0].(string); ok {
+				if _, err := regexp.Compile(pat); err != nil {
+					return tuple{false, fr.i.newErrorString(err.Error())}
+				}
+				return tuple{fr.i.ex.reMatchValue(pat, a[1]), iface{}}
+			}
+			fr.i.ex.unsupported("regexp.MatchString with a symbolic pattern")
 		}
 		ok, err := regexp.MatchString(a[0].(string), a[1].(string))
 		if err != nil {
@@ -454,7 +460,7 @@ func (e *Engine) initMiscExternals() {
 	}
 	t["(*regexp.Regexp).MatchString"] = func(fr *frame, a []value) value {
 		if anySym(a[1:]) {
-			fr.i.ex.unsupported("Regexp.MatchString on symbolic subject")
+			return fr.i.ex.reMatchValue(a[0].(*nativeObj).v.(*regexp.Regexp).String(), a[1])
 		}
 		return a[0].(*nativeObj).v.(*regexp.Regexp).MatchString(a[1].(string))
 	}
